@@ -441,6 +441,22 @@ class DataFileManager:
         table_path = self.file_manager.table_path
         return os.path.join(table_path, path.lstrip("/"))
 
+    def _get_arrow_write_path(self, path: str) -> str:
+        """_get_arrow_path for a file about to be WRITTEN.
+
+        '', '.', 'data/..' resolve to the table root itself and pass the
+        containment check; the writer stages its temp file in the directory of
+        its target, which for the root is the PARENT of the table - a file was
+        created, fully written and removed outside the table before the rename
+        onto the root directory failed (same defect write_file had).
+        """
+        arrow_path = self._get_arrow_path(path)
+        if isinstance(self.storage, LocalStorageBackend) and arrow_path == self.storage._real_base_path():
+            raise ValueError(
+                f"Security Error: '{path}' names the table root itself, not a file inside it"
+            )
+        return arrow_path
+
     def create_arrow_schema(self, iceberg_schema: Schema) -> pa.Schema:
         """Convert Iceberg schema to PyArrow schema"""
         if iceberg_schema.schema_id in self._arrow_schema_cache:
@@ -591,7 +607,7 @@ class DataFileManager:
         arrow_schema = self.create_arrow_schema(iceberg_schema)
 
         # Convert path for PyArrow (adds bucket prefix for S3)
-        arrow_path = self._get_arrow_path(file_path)
+        arrow_path = self._get_arrow_write_path(file_path)
 
         # Convert records to Arrow table to compute statistics before writing
         lower_bounds = None
@@ -725,7 +741,7 @@ class DataFileManager:
         arrow_schema = self.create_arrow_schema(iceberg_schema)
 
         # Convert path for PyArrow (adds bucket prefix for S3)
-        arrow_path = self._get_arrow_path(file_path)
+        arrow_path = self._get_arrow_write_path(file_path)
 
         # Compute column bounds before writing (parity with write_data_file so
         # pandas-written files participate in pruning)
